@@ -159,10 +159,11 @@ def gen_C14(rng, tier):
 
 def judge_C14(case, ml, il):
     toks = case.split()
-    if toks[0] == "c14" and ml and il and len(ml) == 1 and len(il) == 1:
+    if toks[0] == "c14" and ml and il and len(ml) == len(il):
         # "a declaration smaller than the header itself never yields more than the header":
         # the model panics; an error is equally acceptable, a structure is not.
-        if ml[0].endswith("PANIC") and " ERR " in il[0]:
+        diff = [(a, b) for a, b in zip(ml, il) if a != b]
+        if diff and all(a.endswith("PANIC") and " ERR " in b for a, b in diff):
             return ("harmless", "model panics on a declaration below the header size, implementation reports an error")
     return default_judge(case, ml, il)
 
@@ -348,6 +349,25 @@ def gen_C02(rng, tier):
         dist=dist, exhaustive=True)
 
 
+def iter_history(rng, maxops=25):
+    """a random history over a pool of iterators: new / next / clone / nth(k)"""
+    ops = ["[ 0 ]"]
+    n_it = 1
+    for _ in range(rng.randrange(1, maxops)):
+        r = rng.random()
+        if r < 0.1:
+            ops.append("[ 0 ]")
+            n_it += 1
+        elif r < 0.22:
+            ops.append("[ 2 %d ]" % rng.randrange(n_it))
+            n_it += 1
+        elif r < 0.40:
+            ops.append("[ 3 %d %d ]" % (rng.randrange(n_it), rng.choice([0, 0, 1, 1, 2, 3, 5, 9])))
+        else:
+            ops.append("[ 1 %d ]" % rng.randrange(n_it))
+    return " ".join(ops)
+
+
 # ==========================================================================
 # C03
 # ==========================================================================
@@ -428,25 +448,13 @@ def gen_C03(rng, tier):
     n_hist = 6000 if tier == "thorough" else 200
     for _ in range(n_hist):
         b = rng.choice(pool)
-        ops = ["[ 0 ]"]
-        n_it = 1
-        for _ in range(rng.randrange(1, 25)):
-            r = rng.random()
-            if r < 0.1:
-                ops.append("[ 0 ]")
-                n_it += 1
-            elif r < 0.25:
-                ops.append("[ 2 %d ]" % rng.randrange(n_it))
-                n_it += 1
-            else:
-                ops.append("[ 1 %d ]" % rng.randrange(n_it))
-        cases.append("iters %s [ %s ]" % (hx(b), " ".join(ops)))
+        cases.append("iters %s [ %s ]" % (hx(b), iter_history(rng)))
         dist["histories"] += 1
     return cases, dict(
         rule="mbiwalk: every sequence of declared tag sizes (0..remaining+9 at each position, i.e. incl. sizes below 8, "
              "non-multiples of 8, tags ending at/one byte past/8 bytes past the end) over tag regions of 0..%d bytes "
              "(exhaustive), followed by an end tag; seeded random regions of 0..8 tags (30%% with one corrupted size on the walk); "
-             "iters: random new/next/clone histories over those regions. Compared: every yielded item (offset, extent, type, "
+             "iters: random new/next/clone/nth histories over those regions (calls go on after a caught panic). Compared: every yielded item (offset, extent, type, "
              "size, payload bytes), how the walk ends, the module iterator. distinct_nontrivial = distinct (domain, model transcript) pairs."
              % maxR,
         dist=dist, exhaustive=True)
@@ -1399,7 +1407,7 @@ def judge_C19(case, ml, il):
                 return ("ok", "")
             return default_judge(case, ml[:k], il)
         return ("ok", "") if ml == il else default_judge(case, ml, il)
-    return judge_projection(["load", "get", "elf", "elf_section", "elf_end", "elf_nth", "elf_count", "elf_dbg", "debug"])(case, ml, il)
+    return judge_projection(["load", "get", "elf", "elf_section", "elf_end", "elf_nth", "elf_count", "elf_dbg", "elf_hist", "debug"])(case, ml, il)
 
 
 # ---- header regions --------------------------------------------------------------------------------
@@ -1456,6 +1464,11 @@ def gen_C11(rng, tier):
         reqs = b"".join(E.u32(rng.getrandbits(32) if rng.random() < 0.5 else rng.randrange(0, 24)) for _ in range(n))
         cases.append("hdr " + hx(E.header([E.htag(3, 0, E.u32(7)), E.htag(1, rng.randrange(2), reqs), E.htag(1, 0, E.u32(99))])))
         count(dist, "request_lists")
+    hd = {}
+    hpool = gen_hdr_regions(rng, 40, hd, malformed=0.0)
+    for _ in range(1500 if tier == "thorough" else 120):
+        cases.append("hiters %s [ %s ]" % (hx(rng.choice(hpool)), iter_history(rng, 15)))
+        count(dist, "iterator_histories")
     # long headers: the first tag of a kind only after 10..40 tags of other kinds (a getter must walk the whole header)
     for k in range(1, 11):
         for nbefore in (10, 11, 12, 13, 24, 40):
@@ -1496,6 +1509,13 @@ def gen_C09(rng, tier):
             t = (E.u16(typ) + E.u16(s % 2) + E.u32(s) + bytes(body))[:n]
             cases.append("hdr " + hx(E.header([t, E.htag(6, 0, b"")])))
             count(dist, "tag_sizes")
+    # iterator histories over header regions (30% of the tags with wrong sizes): new / next / clone / nth on a pool of
+    # iterators; a call that panics is caught and the iterator is used again
+    hd = {}
+    hpool = gen_hdr_regions(rng, 60, hd, malformed=0.3) + gen_hdr_regions(rng, 30, hd, malformed=0.0)
+    for _ in range(3000 if tier == "thorough" else 250):
+        cases.append("hiters %s [ %s ]" % (hx(rng.choice(hpool)), iter_history(rng)))
+        count(dist, "iterator_histories")
     # find_header: a header at index 0/8/16/64 complete, cut off by the end of the buffer, or declaring more than remains
     for idx in (0, 8, 16, 64):
         for cut in (0, 4, 8, 16):
@@ -1532,7 +1552,7 @@ PROPS.update({
     "C05": dict(gen=gen_C05, configs=["dev", "rel"], judge=judge_mbi_full, both_placements=True, assumptions=[]),
     "C17": dict(gen=gen_C17, configs=["dev", "rel"], judge=judge_projection(["load", "get", "cmdline", "bootloader", "modinfo", "module", "modules", "ctor", "as_bytes", "pstr", "debug"]),
                 both_placements=True, assumptions=["Rust &str arguments are valid UTF-8 by the type's invariant"]),
-    "C18": dict(gen=gen_C18, configs=["dev", "rel"], judge=judge_projection(["load", "get", "efi_mmap", "efi_desc", "efi_end", "efi_nth", "efi_count", "efi_dbg", "debug"]),
+    "C18": dict(gen=gen_C18, configs=["dev", "rel"], judge=judge_projection(["load", "get", "efi_mmap", "efi_desc", "efi_end", "efi_nth", "efi_count", "efi_dbg", "efi_hist", "debug"]),
                 both_placements=True, assumptions=[]),
     "C19": dict(gen=gen_C19, configs=["dev", "rel"], judge=judge_C19,
                 both_placements=True, assumptions=["section names (external addresses) are not dereferenced"]),
